@@ -104,10 +104,81 @@ def _toy_points(g):
     return pts
 
 
+_KEY_CLASSES: dict = {}
+
+
+def _hexb(s: str) -> bytes:
+    return b"" if s == "-" else bytes.fromhex(s)
+
+
+def _key_from_ctor(tok: str, ctor: str):
+    """`d:<d>:<comp>` / `pair:<x>,<y>:<comp>` / `sec:<hex>` -> a real Key object: the BTC network's Key class on secp256k1 (what
+    applications use), `Key.make_subclass` over the generator of the token otherwise"""
+    name, _cfg = split_curve(tok)
+    p = ctor.split(":")
+    if name == "secp256k1":
+        from pycoin.symbols.btc import network as BTC
+        if p[0] == "d":
+            return BTC.keys.private(int(p[1]), is_compressed=(p[2] == "1"))
+        if p[0] == "pair":
+            return BTC.keys.public(parse_pt(p[1]), is_compressed=(p[2] == "1"))
+        return BTC.keys.public(_hexb(p[1]))
+    K = _KEY_CLASSES.get(name)
+    if K is None:
+        from pycoin.key.Key import Key
+        K = _KEY_CLASSES[name] = Key.make_subclass("T", None, _generator(tok))
+    if p[0] == "d":
+        return K(secret_exponent=int(p[1]), is_compressed=(p[2] == "1"))
+    if p[0] == "pair":
+        return K(public_pair=parse_pt(p[1]), is_compressed=(p[2] == "1"))
+    return K.from_sec(_hexb(p[1]))
+
+
+def _bool01(v) -> str:
+    return ("1" if v else "0") if isinstance(v, bool) else "nonbool:" + type(v).__name__
+
+
+def _key_history(key, steps: str) -> str:
+    """a sequence of calls on ONE Key object and the objects derived from it; one answer per step"""
+    last = b""
+    outs = []
+    for st in steps.split(","):
+        q = st.split(":")
+        try:
+            if q[0] == "s":
+                last = key.sign(_hexb(q[1]))
+                outs.append(last.hex() or "-")
+            elif q[0] == "v":
+                outs.append(_bool01(key.verify(_hexb(q[1]), _hexb(q[2]))))
+            elif q[0] == "l":
+                outs.append(_bool01(key.verify(_hexb(q[1]), last)))
+            elif q[0] == "p":
+                key = key.public_copy()
+                outs.append("pub")
+            elif q[0] == "c":
+                key = type(key).from_sec(key.sec())
+                outs.append("sec")
+            else:
+                outs.append("bad-step")
+        except Exception as e:  # noqa: BLE001
+            outs.append("!" + type(e).__name__)
+    return "ok " + ";".join(outs)
+
+
 def eval_op(op: str) -> str:
     a = op.split(" ")
     k = a[0]
     try:
+        if k == "c01_derdec":
+            # oracle helper (never emitted as an op): pycoin's own strict sigdecode_der
+            from pycoin.satoshi.der import sigdecode_der
+            return "ok %d %d" % sigdecode_der(_hexb(a[1]), use_broken_open_ssl_mechanism=False)
+        if k == "keysign_der":
+            return "ok " + (_key_from_ctor(a[1], a[2]).sign(_hexb(a[3])).hex() or "-")
+        if k == "keyverify_der":
+            return "ok " + _bool01(_key_from_ctor(a[1], a[2]).verify(_hexb(a[3]), _hexb(a[4])))
+        if k == "keyhist":
+            return _key_history(_key_from_ctor(a[1], a[2]), a[3])
         if k == "ec_invmod":
             from pycoin.ecdsa.Curve import Curve
             return "ok %d" % Curve(7, 0, 3).inverse_mod(int(a[1]), int(a[2]))
@@ -161,6 +232,12 @@ def eval_op(op: str) -> str:
         if k == "ec_mul":
             # `int * Point` (Point.__rmul__ -> Curve.multiply of the active class)
             return "ok " + show_pt(int(a[3]) * _point(g, a[2]))
+        if k == "ec_mulr":
+            # `Point * int` (Point.__mul__ called directly)
+            return "ok " + show_pt(_point(g, a[2]) * int(a[3]))
+        if k == "ec_rgenmul":
+            # `int * Generator` (Generator.__rmul__)
+            return "ok " + show_pt(int(a[2]) * g)
         if k == "ec_mul_orderless":
             # the same curve without an order (`Curve(p, a, b)`): the ladder runs on the scalar as given
             from pycoin.ecdsa.Curve import Curve
@@ -224,6 +301,18 @@ def eval_op(op: str) -> str:
             par = None if a[5] == "~" else int(a[5])
             l = g.possible_public_pairs_for_signature(int(a[2]), (int(a[3]), int(a[4])), par)
             return "ok " + (";".join(show_pt(P) for P in l) if l else "~")
+        if k == "toy_keys":
+            # every affine curve point under which (z, r, s) verifies, and recovery at the abscissas r and r + n
+            z, r, s_ = int(a[2]), int(a[3]), int(a[4])
+            ver = [P for P in _toy_points(g)[1:] if g.verify(P, z, (r, s_)) is True]
+
+            def rec(x):
+                try:
+                    l = g.possible_public_pairs_for_signature(z, (x, s_))
+                    return ";".join(show_pt(P) for P in l) if l else "~"
+                except Exception as e:  # noqa: BLE001
+                    return "!" + type(e).__name__
+            return "ok %s|%s|%s" % (";".join(show_pt(P) for P in ver) if ver else "~", rec(r), rec(r + g.order()))
         if k == "toy_sign":
             # every z in [1, zmax] signed with d
             d, zmax = int(a[2]), int(a[3])
